@@ -14,7 +14,7 @@ def fixtures(run):
     import json
     import fastavro._read_py as R
     n = 0
-    for path in sorted(glob.glob("/repo/tests/avro-files/*.avro")):
+    for path in sorted(glob.glob(os.environ.get("VF_REPO", "/repo") + "/tests/avro-files/*.avro")):
         data = open(path, "rb").read()
         try:
             p = container.parse_bytes(data)
